@@ -399,7 +399,7 @@ def run(chk):
                       'forwards with displacement, expr data over integer/float expression functions, lref, section '
                       'breakers) built through the public API, loaded and linked by mir.c; compared with the extracted '
                       'Coq model: section head and offset of every item, malloc size of every section, every byte of '
-                      'every section (lref bytes and long-double padding are wildcards), jmpi through label addresses, '
+                      'every section (lref bytes from the engine\'s laddr addresses; long-double padding is a wildcard), jmpi through label addresses, '
                       'lref values against label addresses in the same engine; non-trivial = >= 2 data-like items')
     for c in cases[nfixed:nfixed + 3]:
         chk.sample(c)
